@@ -33,7 +33,7 @@ var lexFragments = []string{
 
 func genLexCmd(in *bufio.Scanner, out *bufio.Writer, args []string) error {
 	fs := flag.NewFlagSet("genlex", flag.ContinueOnError)
-	mode := fs.String("mode", "exhaustive", "exhaustive | random | corpus | big | boundary")
+	mode := fs.String("mode", "exhaustive", "exhaustive | random | corpus | big | boundary | idents")
 	maxLen := fs.Int("len", 3, "exhaustive: maximum length")
 	n := fs.Int("n", 1000, "random: number of cases")
 	seed := fs.Uint64("seed", 1, "random seed")
@@ -109,6 +109,22 @@ func genLexCmd(in *bufio.Scanner, out *bufio.Writer, args []string) error {
 			}
 			fmt.Fprintln(out, hx(b))
 			cnt++
+		}
+	case "idents":
+		// identifiers around fixed-size-buffer lengths, made of letters whose upper-case form has another UTF-8 length
+		// (token.Lookup upper-cases the identifier), alone and mixed with ASCII, bare and followed by a token
+		letters := []string{"a", "Z", "_", "ɐ", "ɑ", "ſ", "ı", "ǅ", "ß", "ŉ", "K", "é", "я", "ⱥ", "ȿ", "ꭰ", "ᲀ", "日", "😀", "٣", "１"}
+		for _, l := range letters {
+			for _, n := range []int{1, 2, 3, 4, 5, 6, 7, 8, 9, 10, 11, 12, 13, 15, 16, 17, 31, 32, 33, 63, 64, 65, 127, 128, 129, 255, 256, 257} {
+				fmt.Fprintln(out, hx([]byte(strings.Repeat(l, n))))
+				fmt.Fprintln(out, hx([]byte("SELECT "+strings.Repeat(l, n)+" FROM t")))
+				if n <= 16 {
+					for _, pre := range []string{"abcdefghij", "select", "x1_", "0"} {
+						fmt.Fprintln(out, hx([]byte(pre+strings.Repeat(l, n))))
+						fmt.Fprintln(out, hx([]byte(strings.Repeat(l, n)+pre+" ")))
+					}
+				}
+			}
 		}
 	case "boundary":
 		// a lexically significant fragment placed so that it straddles a bufio fill boundary (4096, 8192), in every
